@@ -602,11 +602,15 @@ def parse_body(path):
     lines = text.split("\n")
     i = 0
     n = len(lines)
-    while i < n and not lines[i].startswith("fn ") and not lines[i].startswith("const ") and not lines[i].startswith("static "):
+    # `NAME::{constant#0}: <type> = {` is an anonymous (inline) constant: treated like `const`
+    anon = re.compile(r"^[A-Za-z_<][^ ]*\{constant#\d+\}[^ ]*: ")
+    while i < n and not lines[i].startswith("fn ") and not lines[i].startswith("const ") and not lines[i].startswith("static ") and not anon.match(lines[i]):
         i += 1
     if i >= n:
         raise MirUnsupported("no fn header in " + path)
     header = lines[i]
+    if anon.match(header):
+        header = "const " + header
     i += 1
     while i < n and not lines[i - 1].rstrip().endswith("{"):
         if lines[i].strip().startswith("yields"):
